@@ -268,6 +268,7 @@ static const int kind_index[] = { -1, 0, 1, 2, 3, 4, 5, 6, 7, 8, 9, 10, 11, 12, 
 
 static cfg_t root;
 static cfg_opt_t *O; /* the option the step acts on */
+static cfg_searchpath_t *the_path;
 
 /* observable snapshot of O before the step */
 static unsigned pre_nvalues;
@@ -573,6 +574,17 @@ int main(void)
 			O->flags |= CFGF_MODIFIED;
 	}
 	build_values();
+#ifdef WITH_PATH
+	/* a search path on the root, borrowed by every existing section instance */
+	the_path = malloc(sizeof(cfg_searchpath_t));
+	V_ASSUME(the_path != NULL);
+	the_path->dir = heap_str("d");
+	the_path->next = NULL;
+	root.path = the_path;
+	if (O->type == CFGT_SEC)
+		for (i = 0; i < NV; i++)
+			O->values[i]->section->path = the_path;
+#endif
 	/* existing annotation on the option */
 	{
 		V_IN_BOOL(vin_has_comment);
